@@ -503,6 +503,8 @@ Definition run_input (fs : fsys) (root : list ident) (fuel : nat) (name : fpath)
   | Fuel => Fuel
   | Err e s => Err e s
   | Ok (st, acc) =>
+      (* the imports loaded; an input that inference / the compiler then rejects (m_fault = 1) never runs *)
+      if m_fault m =? 1 then Err ECompile st else
       let s1 := write_defs name m (ns st) in
       let known := map d_name (m_defs m) ++ snd acc in
       let ev := {| ev_file := name; ev_key := []; ev_aliases := fst acc; ev_known := known; ev_ns := s1; ev_done := true |} in
@@ -510,9 +512,17 @@ Definition run_input (fs : fsys) (root : list ident) (fuel : nat) (name : fpath)
              ss_names := (fst acc, known) |}, ev)
   end.
 
-(* the session after a failing input *)
-Definition after_error (root : list ident) (ss : sstate) (s : lstate) : sstate :=
-  {| ss_st := {| loaded := if memo_restored_on_error then loaded s else [];
+(* did the input's imports load, the input being rejected afterwards? *)
+Definition rejected_after_load (fs : fsys) (root : list ident) (fuel : nat) (m : module) (ss : sstate) : bool :=
+  match entry_go fs root fuel (m_imports m) (ss_st ss) (ss_names ss) [] with
+  | Ok _ => m_fault m =? 1
+  | _ => false
+  end.
+
+(* the session after a failing input (rejected: after its imports had loaded): is the record of loaded modules
+   back in the VM (Extracted/ModulesTables.v, from repl.rs)?  The names of the input are never recorded. *)
+Definition after_error (root : list ident) (ss : sstate) (s : lstate) (rejected : bool) : sstate :=
+  {| ss_st := {| loaded := if (if rejected then memo_restored_on_reject else memo_restored_on_error) then loaded s else [];
                  stack := []; base := root; ns := ns s; events := events s |};
      ss_names := ss_names ss |}.
 
@@ -527,7 +537,7 @@ Fixpoint run_session (fs : fsys) (root : list ident) (fuel : nat) (inputs : list
       | Ok (ss', _) => Ok (skipn before (events (ss_st ss'))) :: run_session fs root fuel r ss'
       | Err e s =>
           Err e {| loaded := loaded s; stack := stack s; base := base s; ns := ns s; events := skipn before (events s) |}
-          :: run_session fs root fuel r (after_error root ss s)
+          :: run_session fs root fuel r (after_error root ss s (rejected_after_load fs root fuel m ss))
       | Fuel => [Fuel]
       end
   end.
